@@ -298,7 +298,8 @@ def check_kernel(out, facts):
             live = [x for d, x in alts[0][2] if d == 'true']
             evs = [e for e in events(live[0] if live else ['eps']) if e[0] in ('HOOK', 'MUTCALL', 'CALLBACK', 'SET')]
             kinds = [(e[0], e[1] if e[0] == 'MUTCALL' else None) for e in evs]
-            chunk = 'min(unwrap_or(checked_div(MAX_PREALLOCATION=%s, size_of()), MAX=18446744073709551615), %s)' % (maxp, rs)
+            # min is printed with its arguments in canonical (sorted) order, whichever way round it was written
+            chunk = 'min(%s, %s)' % tuple(sorted(['unwrap_or(checked_div(MAX_PREALLOCATION=%s, size_of()), MAX=18446744073709551615)' % maxp, rs]))
             if kinds != [('HOOK', None), ('MUTCALL', 'reserve_exact'), ('CALLBACK', None), ('SET', None)]:
                 why.append('loop body is not hook, reserve_exact, callback, remaining -= chunk: %s' % kinds)
             else:
